@@ -176,6 +176,9 @@ func (c10) Gen(rs uint64, tier string, race bool) interface{} {
 	case "recombine":
 		c.A = []float64{0, 0.25, 0.5}[r.Intn(3)]
 	}
+	if !cli && a.Alphabet == align.NUCLEOTIDS && r.Chance(0.1) {
+		a.Alphabet = align.UNKNOWN // built through the API, the alphabet never detected
+	}
 	if cli {
 		c.Kind = "cli"
 		if r.Chance(0.15) {
@@ -789,6 +792,8 @@ func (c *C10Case) invariant(res *opResult) (class, msg string) {
 		letters := "ACGT"
 		if c.Aln.Alphabet == align.AMINOACIDS {
 			letters = aaCore
+		} else if c.Aln.Alphabet == align.UNKNOWN {
+			letters = "ACGT" + aaCore // no alphabet was ever detected: a letter of either
 		}
 		for i := range os {
 			for j := 0; j < L; j++ {
